@@ -60,6 +60,7 @@ type Interp struct {
 	pathObjs       int
 	curFrames      []*frame
 	dbgStack       []*ssa.Function
+	lcVerdict      []*Term
 	initPkg        *ssa.Package
 	initCache      map[*ssa.Package]map[*ssa.Global]Value
 	specLogs       []*writeLog
@@ -98,6 +99,7 @@ func (in *Interp) ResetPath() {
 	in.specLogs, in.specGuards, in.specStepLimit = nil, nil, 0
 	in.curFrames = nil
 	in.dbgStack = nil
+	in.lcVerdict = nil
 	in.E.NoFork = 0
 	in.World = NewWorld()
 }
